@@ -13,6 +13,12 @@ CLAIMED = {
     "C13": ("TLA+ spec (FrameStream.tla) model-checked with TLC over all producer/consumer interleavings (safety + termination under fairness); every path of TLC's state graph forced on the real reader/consumer threads; free-running thread traces validated by Trace_FrameStream",
             "Design: all interleavings of reader and batching consumer for n<=4 frames, capacity<=3, batch<=3 and a read fault at every position satisfy 8 safety invariants and terminate (TLC, exhaustive, liveness under weak fairness; a counter-model without the finally-sentinel must hang). Code: each maximal path of the dumped state graph is forced step by step on the real VideoReader/LabelsReader thread and the real Predictor._predict_generator with state comparison after every step; free-running runs with larger constants are recorded under the queue mutex and validated by TLC against the same actions.",
             "Trusts TLC, the step scheduler (threads park at put/get/read/infer/join), FakeVideo/FakeLabels instead of real decoding; bounds n<=4 forced, n<=40 free.", "4 (C13)"),
+    "C09": ("TLA+ spec (Tracker.tla) model-checked with TLC (reply clause under any assignment, Track always enabled); real Tracker.track() histories (all presence histories + random scenes, all store x matcher x feature configurations) validated frame by frame by Trace_Tracker",
+            "Design: for both candidate stores, with ANY injective partial assignment into existing tracks and any high/low score flags, every reachable step satisfies the reply clause (returned detections are an injective sub-list of the input, every above-threshold detection has a track, tracks distinct within the frame) and a step is always possible (TLC exhaustive, deadlock checking on). Code: every presence history (3 animals absent/high/low, length<=3) and seeded random scenes (crossings, coincident animals, NaN keypoints, gaps longer than the window) are run on the real Tracker for every store x matcher x feature/score configuration; TLC judges each frame's reply with the same clause.",
+            "Trusts TLC, the JSON bridge, object identity for 'the same detection'; FlowShiftTracker/image features/max_tracks not covered; scenes bounded (6 animals, 30 frames).", "4 (C09/C10)"),
+    "C10": ("TLA+ spec (Tracker.tla) model-checked with TLC over all scenario-class histories (Identity, Distinct; counter-model outside the class must fail); paths of TLC's state graph replayed on the real Tracker and validated step by step by Trace_Tracker against the Track action",
+            "Design: all histories of <=3 animals over 4-5 frames inside the scenario class keep identity, for 2 stores x 2 matchers x 2 reductions x windows {2,3} (TLC exhaustive); without the class restriction TLC finds the identity hand-over (non-vacuity). Code: maximal paths of the dumped state graph are replayed on a fresh real Tracker (3 feature/score pairs, seeded detection permutations, sub-pixel drift) and each real frame must be a Track(D) step of the spec with the observed assignment, with Identity/Distinct evaluated in every state.",
+            "Trusts TLC, the separation abstraction (190 px apart, <=0.5 px drift), graph-path sampling in the quick tier.", "4 (C09/C10)"),
 }
 ALL = ["C%02d" % i for i in range(1, 21)]
 NOT_YET = "check not built yet in this round (planned, see DESIGN.md section 4/8)"
